@@ -17,7 +17,8 @@ FOREIGN_POOL = ['utf-8', 'utf-8', 'ascii', 'latin-1', 'cp1252', 'cp037',
                 'utf-32-be', 'shift_jis', 'gbk', 'koi8-r']
 
 SAFE_LINES = [
-    'alpha', 'beta gamma', 'Fix the bug', 'x', '', 'a b c', '    indented',
+    'alpha', 'beta gamma', 'Fix the bug', 'x', '', '', '', 'a b c',
+    '    indented',
     ' lead', '#.change:', '#diffx: version=1.0', '#...diff: length=3',
     '@@ -1,2 +1,2 @@', '+added', '-removed', '--- a/file', '+++ b/file',
     'é', 'Жя', '中文', 'tab\there', 'nul\x00', '}', '{"a": 1}', 'end.',
@@ -198,10 +199,14 @@ def docs(draw, allow_unencoded=True, allow_nonobject_meta=False,
         if draw(st.booleans()):
             preamble('..preamble')
 
-        if draw(st.booleans()):
+        has_cmeta = draw(st.booleans())
+
+        if has_cmeta:
             meta('..meta')
 
-        for _f in range(draw(st.integers(1, max_files))):
+        lo = 0 if has_cmeta and draw(st.integers(0, 7)) == 0 else 1
+
+        for _f in range(draw(st.integers(lo, max_files))):
             container('..file', 2)
             meta('...meta')
 
